@@ -114,7 +114,7 @@ def variant(r, shape=None):
 def run(ctx):
   q = ctx.quick
   r = core.rng(ctx, 6)
-  from harness.drivers import c01
+  from harness.drivers import c01, c04
   ctx.rule = ('separated: ModelSpace models with plane-colliding geoms above a ground plane (min distance > 1 mm before and '
               'after) vs the twin with collisions disabled; limits: models with limits on some joints, q strictly inside, vs '
               'the twin without any range; unit quaternions on all of them; push-only: sphere/box/capsule 2-20 mm inside the '
@@ -157,7 +157,7 @@ def run(ctx):
       xb = render.render(ml, limits=False)
       for pipe in PIPES:
         twin.append({'what': 'limits', 'xml_a': xa, 'xml_b': xb, 'pipe': pipe, 'q': qv, 'qd': qdv, 'steps': steps, 'acts': None,
-                     'lim_idx': lim_idx, 'lo': lo, 'hi': hi})
+                     'lim_idx': lim_idx, 'lo': lo, 'hi': hi, 'stacks': c04.stack_class(m)})
   # near-touching but separated primitives approaching the ground fast: contacts are detected at the pre-step pose, so
   # for the spring and generalized pipelines a separated state steps exactly like the collision-free twin
   for _ in range(3 if q else 24):
@@ -203,7 +203,8 @@ def run(ctx):
     for grav in (-9.81, 0.0):
       xml, rest = scene(shape, size, dens, -depth, gravity=grav, quat=quat)
       for pipe in PIPES:
-        push.append({'what': 'push', 'xml': xml, 'pipe': pipe, 'q': None, 'qd': None, 'steps': 1, 'acts': None, 'rest': rest})
+        push.append({'what': 'push', 'xml': xml, 'pipe': pipe, 'q': None, 'qd': None, 'steps': 1, 'acts': None, 'rest': rest,
+                     'grav': grav})
   # ---- drops and rebounds
   drops = []
   for _ in range(3 if q else 20):
@@ -239,7 +240,10 @@ def run(ctx):
     sp = np.linalg.norm(np.array(out['vel'])[:, bi, :], axis=-1)
     rest = case['rest']
     if case['what'] == 'push':
-      evs = [{'kind': 'push', 'dz': quant(z[1] - z[0], 1e-6), 'vz': quant(vz[1], 1e-6)}]
+      # what the CONTACT did: motion relative to the same step of free fall (semi-implicit Euler: v = g dt, dz = g dt^2);
+      # under gravity a shallow contact may push less than gravity pulls, which is not "pulled in"
+      g, dt = case.get('grav', 0.0), 0.002
+      evs = [{'kind': 'push', 'dz': quant(z[1] - z[0] - g * dt * dt, 1e-6), 'vz': quant(vz[1] - g * dt, 1e-6)}]
     elif case['what'] == 'drop':
       evs = [{'kind': 'drop_start'}]
       for t in range(1, len(z)):
@@ -290,7 +294,8 @@ def run(ctx):
       nolimit_twin = what == 'limits'
       ctx.violation(f'{case["pipe"]} {what}: law {bad["kind"] if bad else "?"} rejected at event {at}: {bad}; observed {out}',
                     {k: v for k, v in case.items() if k != 'acts'} | {'event': bad},
-                    {'call': case['pipe'], 'predicate': f'{what}_{bad["kind"] if bad else "trace"}'})
+                    {'call': case['pipe'], 'predicate': f'{what}_{bad["kind"] if bad else "trace"}',
+                     **({'stacks': case['stacks']} if 'stacks' in case else {})})
   ctx.extra['cases'] = stats
   ctx.exhaustive = False
 
